@@ -66,6 +66,21 @@ CHECKS = {
  "C13": dict(tech=TECH+"must-pass-through path rules on the session function (Wait / deferred cancel / deferred Close), enumeration and classification of every blocking select, receive and send (Done() case and the root of its context), cycle rule for the connection wrapper's retry loop, path rule for the receive loops, session-automaton exploration for the shutdown DISCONNECT",
    text="No-leak / join / close structure for every termination cause; the numeric bound and OS-level blocking inside net.Conn are not decided.",
    note="Trusted: go/ssa, errgroup, context semantics.", ref="4/C13"),
+ "C16": dict(tech=TECH+"identity/DUP rule on every gateway retry callback (path rule + type-flow of the stored step data), step-table extraction by exploring each handler per transaction state, origin tracing of the forwarded message IDs, shared rules for the REGISTER step and for the client's PUBREL/QoS 2 receive side",
+   text="Each retransmission is the stored packet with DUP set, the per-step tables (required state, packet, side, next state) are the protocol's, wrong-state packets are inert, the budget stop is final and both endpoints have the handlers loss recovery depends on. End-to-end delivery for a given loss pattern and handler-exactly-once are history properties and are not decided.",
+   note="Trusted: go/ssa. State constants are discovered from the code (the states the broker-PUBLISH case enters), not assumed.", ref="4/C16"),
+ "C17": dict(tech=TECH+"exploration of the client dispatcher per (trigger, stored transaction type, transaction state); identity/DUP rule on every client retry callback; origin tracing of the PUBCOMP message ID; error-propagation rule; store-before-send event-order rule",
+   text="Success only on the acknowledgement in the right state, DUP and unchanged packet on retransmission, PUBREL always answered whatever is stored under its ID, step errors not dropped, transaction registered before the PUBLISH leaves. 'Within the retry budget' is timing and not decided.",
+   note="Trusted: go/ssa.", ref="4/C17"),
+ "C27": dict(tech=TECH+"dominance rule for the callback selection (guarded by the matcher on that handler's route), exhaustive exploration of one recursion step of the matcher over its five predicates (an inductive argument over the route), key-agreement and inverse-function rules for store/delete, path rule delete-before-Success",
+   text="Only matching filters' callbacks run, unsubscribe removes exactly what subscribe stored, and the matcher's single step is the MQTT rule for '/', '+', '#' for all predicate valuations (which by structural induction is the matching relation).",
+   note="Trusted: go/ssa, strings.Split/Join. UTF-8 aspects of names are out of scope.", ref="4/C27"),
+ "C28": dict(tech=TECH+"enumeration/classification of every blocking select, receive and send of package client (Done() case, context root), path rules (failed send -> Fail before the wait; Close -> cancel on every path), lock-balance rule at every return, key-agreement rule for completion callbacks, exploration of the sleep transaction's timer functions",
+   text="Absence of an unconditional wait for all gateway behaviours, and the structural causes of hangs (leaked lock, stale store slot, missed cancel). Numeric bounds and user callbacks are not decided.",
+   note="Trusted: go/ssa.", ref="4/C28"),
+ "C33": dict(tech=TECH+"dominance rules on the keep-alive loop's select cases (Stop / Reset only for Active / created stopped / tick pings), who-may-write rule for the client state, guard rule for ping retransmissions, slot-order rule for PINGRESP routing",
+   text="Gating and routing structure. Ping retransmissions that are not state-gated and the PINGRESP slot order (keep-alive steals the sleep transaction's PINGRESP) are genuine defects recorded as known findings; 'at least once per KeepAlive period' is timing and not decided.",
+   note="Trusted: go/ssa, time.Ticker.", ref="4/C33"),
 }
 
 NA = {
